@@ -100,6 +100,10 @@ func tenantSchedRun(c TenantSchedCase) ([]*ev.Violation, []string) {
 			hr, _, _ = spsim.Encode(spec.IdP.Route("sso"), wr(a.Tree(plainStyle)), spsim.Transport{Binding: []string{"post", "redirect"}[i%2], Plus: true, Encoding: A, RelayState: fmt.Sprintf("rs-task-%d", i)}, nil)
 		} else if c.Kind == "attrquery" {
 			q := spsim.NewAttrQuery(fmt.Sprintf("_tq-%d", i), tenantEntity, tenantLogin)
+			if i%2 == 1 {
+				// addressed to the attribute service this IdP advertises for the host the query is sent to
+				q.Destination = spec.IdP.Advertised("attribute", tenantHosts[tn])
+			}
 			hr, _, _ = spsim.Encode(spec.IdP.Route("attribute"), wr(spsim.Envelope(q.QueryTree(plainStyle), "soap")), spsim.Transport{Binding: "soap"}, nil)
 		} else {
 			l := spsim.NewLogoutReq(fmt.Sprintf("_tl-%d", i), tenantEntity, "someone")
